@@ -647,7 +647,13 @@ Error Message: {}
                 blob = self._get_session_blob(
                     key, service, username, algorithm
                 )
-                if not key.verify_ssh_sig(blob, sig):
+                # the signature must use the algorithm named in the request
+                # (RFC 8332 section 3.2), not any other one the key supports
+                sig_algo = Message(sig.asbytes()).get_text()
+                if sig_algo != algorithm.replace("-cert-v01@openssh.com", ""):
+                    self._log(INFO, "Auth rejected: signature algorithm")
+                    result = AUTH_FAILED
+                elif not key.verify_ssh_sig(blob, sig):
                     self._log(INFO, "Auth rejected: invalid signature")
                     result = AUTH_FAILED
         elif method == "keyboard-interactive":
